@@ -295,6 +295,67 @@ Proof.
 Qed.
 Print Assumptions C05_explicit_transformation_not_empty.
 
+(* THE PRECEDENCE RULE of the property text, from the keyword tokens of a cell card
+   (ParseMCNPCell.parse_one_cell_worker / parse_fill_kw / parse_trcl_kw, tokens abstract;
+   [mk] = the tuple as a transformation, falsy exactly when empty; [norm] = to_cos +
+   normalize_transform on four or more numbers, which returns twelve numbers):
+   the filling universe of a cell with `FILL=n` / `*FILL=n` is placed by the FILL transformation
+   whenever one is written - a TR number, three numbers (even 0 0 0), or more, starred or not -
+   whatever TRCL the cell has; a FILL without transformation follows the cell's TRCL; without
+   TRCL the universe sits in the cell's own frame *)
+Definition tuple_law {T : Type} (tr_empty : T -> bool) (mk : list Z -> T) : Prop :=
+  forall l, tr_empty (mk l) = match l with [] => true | _ => false end.
+
+Theorem C05_precedence_from_tokens :
+  forall (T P : Type) (tr_empty : T -> bool) (inv : T -> P -> P) (mk : list Z -> T)
+         (norm : bool -> list Z -> list Z),
+  tuple_law tr_empty mk -> (forall star params, norm star params <> []) ->
+  forall table mat rho geom imp u star univ trid params trcl (cl : cell T),
+  (forall k c, dget k table = Some c -> c <> []) ->
+  cell_of_keywords T mk norm table mat rho geom imp u (Some (star, univ, trid, params)) trcl = Ok cl ->
+  c_fill cl = Some univ /\
+  (params <> [] ->
+     exists lf, kw_tuple norm true star trid params table = Ok lf /\ lf <> [] /\
+                forall p, frame T P tr_empty inv cl p = inv (mk lf) p) /\
+  (params = [] ->
+     match trcl with
+     | Some (tstar, ttrid, tparams) =>
+         exists lt, kw_tuple norm false tstar ttrid tparams table = Ok lt /\
+                    forall p, frame T P tr_empty inv cl p =
+                              match lt with [] => p | _ => inv (mk lt) p end
+     | None => forall p, frame T P tr_empty inv cl p = p
+     end).
+Proof. exact precedence_from_tokens. Qed.
+Print Assumptions C05_precedence_from_tokens.
+
+(* ... end to end: below a container whose record comes from its keywords, the rest of a located
+   descent is located at the point moved back by the written FILL transformation, else by the
+   container's TRCL, else unmoved; C05_pipeline_located then gives the converted cell that is
+   true there *)
+Theorem C05_precedence_located :
+  forall (T surf P : Type) (tr_empty : T -> bool) (inv : T -> P -> P) (sense : surf -> P -> bool)
+         (mk : list Z -> T) (norm : bool -> list Z -> list Z),
+  tuple_law tr_empty mk -> (forall star params, norm star params <> []) ->
+  forall table mat rho geom imp u star univ trid params trcl (cl : cell T)
+         (s : state T surf) du key p c r,
+  (forall k cd, dget k table = Some cd -> cd <> []) ->
+  cell_of_keywords T mk norm table mat rho geom imp u (Some (star, univ, trid, params)) trcl = Ok cl ->
+  dget key (s_cells s) = Some cl ->
+  LocW T surf P tr_empty inv sense s du key p (key :: c :: r) true ->
+  (params <> [] ->
+     exists lf, kw_tuple norm true star trid params table = Ok lf /\ lf <> [] /\
+                LocW T surf P tr_empty inv sense s du c (inv (mk lf) p) (c :: r) true) /\
+  (params = [] ->
+     match trcl with
+     | Some (tstar, ttrid, tparams) =>
+         exists lt, kw_tuple norm false tstar ttrid tparams table = Ok lt /\
+                    LocW T surf P tr_empty inv sense s du c
+                         (match lt with [] => p | _ => inv (mk lt) p end) (c :: r) true
+     | None => LocW T surf P tr_empty inv sense s du c p (c :: r) true
+     end).
+Proof. exact precedence_located. Qed.
+Print Assumptions C05_precedence_located.
+
 (* non-vacuity: the executable instance of the correspondence check obeys both laws (points on a
    line), and a deck with two levels of universes (fill transformation at level 0, TRCL-only
    fill at level 1) satisfies every hypothesis above; the point x = 9 is located along
